@@ -31,6 +31,9 @@ pub enum Val {
     I(i64),
     S(String),
     B(bool),
+    /// a numeric field holding a floating-point NaN (only ever generated as a FACT value, never
+    /// as a literal): no ordering comparison holds for it under any reading
+    Nan,
     /// anything outside the typed core that the engine produced (float, null, array, ...)
     X(String),
 }
@@ -43,6 +46,7 @@ impl Val {
             Val::I(i) => json!(i),
             Val::S(s) => json!(s),
             Val::B(b) => json!(b),
+            Val::Nan => json!({ "nan": true }),
             Val::X(s) => json!({ "other": s }),
         }
     }
@@ -51,6 +55,7 @@ impl Val {
             Json::Number(n) => n.as_i64().map(Val::I),
             Json::String(s) => Some(Val::S(s.clone())),
             Json::Bool(b) => Some(Val::B(*b)),
+            Json::Object(o) if o.contains_key("nan") => Some(Val::Nan),
             Json::Object(o) => o.get("other").and_then(|v| v.as_str()).map(|s| Val::X(s.to_string())),
             _ => None,
         }
@@ -60,6 +65,7 @@ impl Val {
             Val::I(i) => i.to_string(),
             Val::S(s) => format!("\"{}\"", s),
             Val::B(b) => b.to_string(),
+            Val::Nan => "NaN".to_string(),
             Val::X(s) => s.clone(),
         }
     }
@@ -68,6 +74,7 @@ impl Val {
             Val::I(i) => FactValue::Integer(*i),
             Val::S(s) => FactValue::String(s.clone()),
             Val::B(b) => FactValue::Boolean(*b),
+            Val::Nan => FactValue::Float(f64::NAN),
             Val::X(s) => FactValue::String(s.clone()),
         }
     }
@@ -76,6 +83,7 @@ impl Val {
             FactValue::Integer(i) => Val::I(*i),
             FactValue::String(s) => Val::S(s.clone()),
             FactValue::Boolean(b) => Val::B(*b),
+            FactValue::Float(f) if f.is_nan() => Val::Nan,
             other => Val::X(format!("{:?}", other)),
         }
     }
@@ -270,6 +278,11 @@ pub fn eval(c: &Cond, f: &Fields) -> Tri {
                 (Val::B(a), Val::B(b)) => match op {
                     Op::Eq => a == b,
                     Op::Ne => a != b,
+                    _ => return Tri::Undefined,
+                },
+                // NaN in a numeric field: every ordering comparison is false; (in)equality is left open
+                (Val::Nan, Val::I(_)) => match op {
+                    Op::Lt | Op::Le | Op::Gt | Op::Ge => false,
                     _ => return Tri::Undefined,
                 },
                 _ => return Tri::Undefined,
@@ -565,7 +578,8 @@ pub const STR_DOMAIN: [&str; 8] = ["", "a", "ab", "abc", "gold", "old", "go", "s
 pub fn gen_fields(rng: &mut Rng, drop_field_one_in: u32) -> Fields {
     let mut f = Fields::new();
     for k in INT_FIELDS {
-        f.insert(k.to_string(), Val::I(*rng.pick(&INT_DOMAIN)));
+        // 1 in 16 numeric fields holds a NaN
+        f.insert(k.to_string(), if rng.chance(1, 16) { Val::Nan } else { Val::I(*rng.pick(&INT_DOMAIN)) });
     }
     f.insert(STR_FIELD.to_string(), Val::S(rng.pick(&STR_DOMAIN).to_string()));
     f.insert(BOOL_FIELD.to_string(), Val::B(rng.bool()));
